@@ -652,7 +652,9 @@ PLANS = {
         'streams': [exh('integer_arith_exh', 'integer_small', 'arith'), exh('integer_logic_exh', 'integer_small', 'logic'),
                     rnd('integer_arith_rnd', 'integer_large', 'arith', 1500, 40000, shards=16),
                     rnd('integer_logic_rnd', 'integer_large', 'logic', 500, 10000, shards=16),
-                    exh('integer_intconv_exh', 'integer_small', 'intconv'), rnd('integer_intconv_rnd', 'integer_large', 'intconv', 300, 5000, shards=16)],
+                    exh('integer_intconv_exh', 'integer_small', 'intconv'), rnd('integer_intconv_rnd', 'integer_large', 'intconv', 300, 5000, shards=16),
+                    exh('integer_sizeconv_exh', 'convcfg_p2', 'arith', shards=8, what='conversions between integer sizes (and fixpnt configurations), every source encoding <= 12 bits'),
+                    rnd('integer_sizeconv_rnd', 'convcfg_p2', 'arith', 3000, 60000, shards=8, what='conversions between integer sizes, block types u8/u16/u32/u64, sizes that do not fill the top block')],
     },
     'C09': {
         'level': 'proof', 'coq': 'Properties_C09',
